@@ -8,7 +8,7 @@ BUDGET = {'quick': 60, 'thorough': 600}
 RULE = ('every UpgradedSignature returned by merge/embed/mask/forwards/signatures.signature/sigtools.signature during the '
         'algebra workloads over the extended universe (defaults, annotations, return annotations; eager and postponed), partial '
         'retrieval and discovery workloads is compared with a plain inspect.Signature twin built from the same data: str(), '
-        'bind() and bind_partial() on every call shape, replace() contracts on the signature and each parameter, and a '
+        'bind() and bind_partial() on every call shape, replace() contracts on the signature and each parameter (no override, joint overrides, every field alone incl. falsy values), and a '
         'comparison menagerie (None, 0, str, object(), plain twin, itself, upgraded copy, plain/upgraded objects differing in '
         'one field) for ==, !=, symmetry, reflexivity, hash consistency and hashability. Non-trivial: each structurally '
         'distinct signature (string form + provenance shape), checked once.')
